@@ -15,6 +15,12 @@ for sd in seeds:
     try:
         subprocess.run('git -C /repo archive HEAD | tar -x -C %s' % tmp, shell=True, check=True)
         r = subprocess.run(['patch', '-p1', '-s', '-i', os.path.join(ROOT, 'seeded', sd, 'patch.diff')], cwd=tmp)
+        if r.returncode != 0:
+            # the patch no longer applies to /repo HEAD (the code it changes was changed since): not a result
+            json.dump({'_stale': {'rc': None, 'violations': [], 'undecided': ['patch does not apply to /repo HEAD']}},
+                      open(os.path.join(ROOT, 'seeded', sd, 'detection.json'), 'w'), indent=1)
+            print(sd, 'STALE: patch does not apply', flush=True)
+            continue
         res = {}
         def one(p):
             env = dict(os.environ, CALLOOP_REPO=tmp, VERIF_EVIDENCE_DIR=os.path.join(tmp, 'evidence'), VERIF_BUILD_DIR=os.path.join(tmp, 'build'), VERIF_REPLAY_DIR=os.path.join(tmp, 'replay'), VERIF_JOBS='4', VERIF_DIAG='1', VERIF_NO_SELFTEST='1')
